@@ -98,3 +98,785 @@ def lean_int(i: int) -> str:
 HEADER = ('/-\nGENERATED on every run by harness/translate.py from the current /repo working tree.\n'
           'Do not edit: the property theorems are re-checked against what the code says NOW.\n'
           'source: {src}\n-/\n')
+
+
+# ------------------------------------------------------------------------------------------
+# numeric literals inside function bodies (thresholds, tolerances, fall-back values)
+# ------------------------------------------------------------------------------------------
+# The shapes are given as TEMPLATES: Python expressions in which the names `_N0`, `_N1`, … are
+# holes for one numeric literal each (an int or float constant, optionally with a unary minus).
+# Everything else of the template has to be found in the source exactly (same operators, same
+# names, same attribute chains, same argument lists).  A function in which the template does
+# not occur exactly the expected number of times is a shape that is not recognised.
+
+_HOLE_PREFIX = '_N'
+
+
+def _is_hole(node: ast.AST) -> Optional[str]:
+    if isinstance(node, ast.Name) and node.id.startswith(_HOLE_PREFIX) and node.id[len(_HOLE_PREFIX):].isdigit():
+        return node.id
+    return None
+
+
+def numeric_literal(node: ast.AST) -> Any:
+    """an int / float constant, possibly negated; anything else is not a number we understand"""
+    neg = False
+    if isinstance(node, ast.UnaryOp) and isinstance(node.op, (ast.USub, ast.UAdd)):
+        neg = isinstance(node.op, ast.USub)
+        node = node.operand
+    if isinstance(node, ast.Constant) and not isinstance(node.value, bool) and isinstance(node.value, (int, float)):
+        return -node.value if neg else node.value
+    raise TranslateError(f'not a numeric literal: {ast.dump(node)[:120]}')
+
+
+def _match(node: Any, tmpl: Any, holes: Dict[str, Any]) -> bool:
+    if isinstance(tmpl, ast.AST):
+        h = _is_hole(tmpl)
+        if h is not None:
+            try:
+                v = numeric_literal(node) if isinstance(node, ast.AST) else None
+            except TranslateError:
+                return False
+            if v is None:
+                return False
+            if h in holes and holes[h] != v:
+                return False
+            holes[h] = v
+            return True
+        if type(node) is not type(tmpl):
+            return False
+        for field in tmpl._fields:
+            if field in ('ctx', 'kind', 'type_comment'):
+                continue
+            if not _match(getattr(node, field, None), getattr(tmpl, field, None), holes):
+                return False
+        return True
+    if isinstance(tmpl, list):
+        return isinstance(node, list) and len(node) == len(tmpl) and all(_match(n, t, holes) for n, t in zip(node, tmpl))
+    return node == tmpl
+
+
+def match_template(node: ast.AST, template: str) -> Optional[Dict[str, Any]]:
+    """{hole: number} when `node` is the template with numbers in its holes, else None"""
+    try:
+        t = ast.parse(template, mode='eval').body
+    except SyntaxError as e:
+        raise TranslateError(f'bad template {template!r}: {e}')
+    holes: Dict[str, Any] = {}
+    return holes if _match(node, t, holes) else None
+
+
+def _function(rel: str, qualname: str) -> ast.AST:
+    fn = find_def(parse_file(rel), qualname)
+    if not isinstance(fn, (ast.FunctionDef, ast.AsyncFunctionDef)):
+        raise TranslateError(f'{qualname} is not a function')
+    return fn
+
+
+def _own_nodes(fn: ast.AST):
+    """the nodes of a function body without nested function / class definitions"""
+    stack = list(reversed(fn.body))
+    while stack:
+        n = stack.pop()
+        yield n
+        if isinstance(n, (ast.FunctionDef, ast.AsyncFunctionDef, ast.ClassDef, ast.Lambda)):
+            continue
+        stack.extend(reversed(list(ast.iter_child_nodes(n))))
+
+
+def literals_in(rel: str, qualname: str, template: str, count: int = 1) -> List[Dict[str, Any]]:
+    """all places of function `qualname` that are the template (holes filled with numeric literals), in
+    source order; exactly `count` are required"""
+    fn = _function(rel, qualname)
+    found = []
+    for n in _own_nodes(fn):
+        if isinstance(n, ast.expr):
+            m = match_template(n, template)
+            if m is not None:
+                found.append((getattr(n, 'lineno', 0), getattr(n, 'col_offset', 0), m))
+    found.sort(key=lambda x: (x[0], x[1]))
+    if len(found) != count:
+        raise TranslateError(f'{rel}:{qualname}: expected {count} occurrence(s) of `{template}`, found {len(found)}')
+    return [m for _, _, m in found]
+
+
+def literal_in(rel: str, qualname: str, template: str, hole: str = '_N0') -> Any:
+    """the number in the hole of the single occurrence of the template in the function"""
+    m = literals_in(rel, qualname, template, 1)[0]
+    if hole not in m:
+        raise TranslateError(f'template `{template}` has no hole {hole}')
+    return m[hole]
+
+
+def assigned_literal(rel: str, qualname: str, var: str, under: Optional[str] = None) -> Any:
+    """the numeric literal of the only assignment `var = <number>` in the function; with `under`, the
+    assignment has to be the only statement of an `if` without `else` whose test is that template
+    (returned as (number, holes of the test))"""
+    fn = _function(rel, qualname)
+    hits = []
+    for n in _own_nodes(fn):
+        if isinstance(n, ast.Assign) and len(n.targets) == 1 and isinstance(n.targets[0], ast.Name) \
+                and n.targets[0].id == var:
+            hits.append(n)
+    if len(hits) != 1:
+        raise TranslateError(f'{rel}:{qualname}: expected one assignment to `{var}`, found {len(hits)}')
+    val = numeric_literal(hits[0].value)
+    if under is None:
+        return val
+    for n in _own_nodes(fn):
+        if isinstance(n, ast.If) and len(n.body) == 1 and n.body[0] is hits[0] and not n.orelse:
+            m = match_template(n.test, under)
+            if m is None:
+                break
+            return val, m
+    raise TranslateError(f'{rel}:{qualname}: `{var} = {val}` is not the single statement guarded by `if {under}:`')
+
+
+def _callee_name(call: ast.Call) -> Optional[str]:
+    f = call.func
+    if isinstance(f, ast.Name):
+        return f.id
+    if isinstance(f, ast.Attribute):
+        return f.attr
+    return None
+
+
+def call_argument(rel: str, qualname: str, callee: str, param: str, position: Optional[int] = None,
+                  min_calls: int = 1) -> Any:
+    """what the calls of `callee` inside function `qualname` pass for parameter `param` (keyword, or the
+    positional argument at `position`): a numeric literal, the string 'DEFAULT' when the argument is not
+    passed, or ('NAME', id) when a plain variable is passed.  All calls have to agree."""
+    fn = _function(rel, qualname)
+    seen = []
+    for n in _own_nodes(fn):
+        if isinstance(n, ast.Call) and _callee_name(n) == callee:
+            if any(isinstance(a, ast.Starred) for a in n.args) or any(k.arg is None for k in n.keywords):
+                raise TranslateError(f'{rel}:{qualname}: call of {callee} with * / ** arguments')
+            node = None
+            for k in n.keywords:
+                if k.arg == param:
+                    node = k.value
+            if node is None and position is not None and len(n.args) > position:
+                node = n.args[position]
+            if node is None:
+                seen.append('DEFAULT')
+            elif isinstance(node, ast.Name):
+                seen.append(('NAME', node.id))
+            else:
+                seen.append(numeric_literal(node))
+    if len(seen) < min_calls:
+        raise TranslateError(f'{rel}:{qualname}: expected at least {min_calls} call(s) of {callee}, found {len(seen)}')
+    if any(s != seen[0] for s in seen):
+        raise TranslateError(f'{rel}:{qualname}: calls of {callee} disagree on `{param}`: {seen}')
+    return seen[0]
+
+
+def effective_argument(rel: str, qualname: str, callee: str, param: str, position: Optional[int],
+                       callee_rel: str, callee_qualname: Optional[str] = None, min_calls: int = 1) -> Any:
+    """the number that reaches `param` of `callee` from the calls inside `qualname`: the literal passed,
+    or the callee's default when nothing is passed (a variable is not followed: not recognised)"""
+    a = call_argument(rel, qualname, callee, param, position, min_calls)
+    if a == 'DEFAULT':
+        d = func_defaults(callee_rel, callee_qualname or callee)
+        if param not in d:
+            raise TranslateError(f'{callee_rel}:{callee_qualname or callee} has no default for `{param}`')
+        return numeric_literal(ast.parse(repr(d[param]), mode='eval').body)
+    if isinstance(a, tuple):
+        raise TranslateError(f'{rel}:{qualname}: {callee}({param}={a[1]}) passes a variable')
+    return a
+
+
+def as_int(v: Any) -> int:
+    if isinstance(v, bool) or not isinstance(v, int):
+        raise TranslateError(f'not an integer literal: {v!r}')
+    return v
+
+
+def lean_ratio(v: Any) -> str:
+    f = as_fraction(v)
+    return f'({lean_int(f.numerator)}, {f.denominator})'
+
+
+# ------------------------------------------------------------------------------------------
+# string tables inside function bodies (column names, dictionary keys, format strings)
+# ------------------------------------------------------------------------------------------
+# Every finder returns SITES: (value, guards, lineno).  `guards` is the chain of the enclosing `if` statements of
+# the function, outermost first, as pairs (test, branch) with `test` the unparsed condition (ast.unparse: one
+# spelling whatever the quotes / line breaks of the source) and branch 'body' or 'orelse' (an `elif` is the
+# `orelse` of its `if` followed by its own test).  Loops, `with`, `try` blocks are walked through and are no
+# guards; conditional EXPRESSIONS (`a if c else b`, `and` / `or`, comprehension filters) are not guards either.
+# Nested functions / classes / lambdas are not entered.  The caller states the guard chain it expects; anything
+# else is a shape that is not recognised.
+
+Guards = tuple
+
+
+def _guarded_nodes(fn: ast.AST):
+    """(node, guards) for every node of the function's own body, in source order"""
+    out = []
+
+    def expr(node: ast.AST, guards: Guards):
+        stack = [node]
+        while stack:
+            n = stack.pop()
+            if isinstance(n, (ast.FunctionDef, ast.AsyncFunctionDef, ast.ClassDef, ast.Lambda)):
+                continue
+            out.append((n, guards))
+            stack.extend(reversed(list(ast.iter_child_nodes(n))))
+
+    def block(stmts, guards: Guards):
+        for s in stmts:
+            stmt(s, guards)
+
+    def stmt(s: ast.AST, guards: Guards):
+        if isinstance(s, (ast.FunctionDef, ast.AsyncFunctionDef, ast.ClassDef)):
+            return
+        if isinstance(s, ast.If):
+            out.append((s, guards))
+            expr(s.test, guards)
+            t = ast.unparse(s.test)
+            block(s.body, guards + ((t, 'body'),))
+            block(s.orelse, guards + ((t, 'orelse'),))
+            return
+        out.append((s, guards))
+        for field, value in ast.iter_fields(s):
+            if isinstance(value, list) and value and all(isinstance(v, ast.stmt) for v in value):
+                block(value, guards)
+            elif isinstance(value, list):
+                for v in value:
+                    if isinstance(v, ast.ExceptHandler):
+                        out.append((v, guards))
+                        if v.type is not None:
+                            expr(v.type, guards)
+                        block(v.body, guards)
+                    elif isinstance(v, ast.match_case):
+                        raise TranslateError('match statements are not understood')
+                    elif isinstance(v, ast.AST):
+                        expr(v, guards)
+            elif isinstance(value, ast.AST):
+                expr(value, guards)
+
+    block(fn.body, ())
+    out.sort(key=lambda x: (getattr(x[0], 'lineno', 0), getattr(x[0], 'col_offset', 0)))
+    return out
+
+
+def _same_expr(node: ast.AST, template: str) -> bool:
+    try:
+        t = ast.parse(template, mode='eval').body
+    except SyntaxError as e:
+        raise TranslateError(f'bad template {template!r}: {e}')
+    return _match(node, t, {})
+
+
+def str_list(node: ast.AST) -> List[str]:
+    """a list / tuple display of string literals, nothing else"""
+    if not isinstance(node, (ast.List, ast.Tuple)):
+        raise TranslateError(f'not a list of string literals: {ast.dump(node)[:120]}')
+    out = []
+    for e in node.elts:
+        if not (isinstance(e, ast.Constant) and isinstance(e.value, str)):
+            raise TranslateError(f'not a string literal in a list: {ast.dump(e)[:120]}')
+        out.append(e.value)
+    return out
+
+
+def assigned_str_lists(rel: str, qualname: str, target: str):
+    """sites of all assignments `<target> = [...]` in the function (`target` is a Python expression such as
+    `headers` or `self.line_file_headers`); an assignment to the target whose value is not a list of string
+    literals is reported as the value None (the caller decides whether it matters)"""
+    fn = _function(rel, qualname)
+    sites = []
+    for n, g in _guarded_nodes(fn):
+        if isinstance(n, ast.Assign) and len(n.targets) == 1 and _same_expr(n.targets[0], target):
+            try:
+                v = str_list(n.value)
+            except TranslateError:
+                v = None
+            sites.append((v, g, n.lineno))
+        elif isinstance(n, (ast.AugAssign, ast.AnnAssign)) and _same_expr(n.target, target):
+            sites.append((None, g, n.lineno))
+    return sites
+
+
+def the_assigned_str_list(rel: str, qualname: str, target: str, guards: Guards):
+    """the list of string literals of the ONLY assignment to `target` that sits under exactly the guard chain
+    `guards`; further assignments to the target under other guards are allowed only if `target` is a plain
+    expression the caller knows about — here: none may be a list display (two tables would be ambiguous)"""
+    sites = assigned_str_lists(rel, qualname, target)
+    hits = [s for s in sites if s[1] == tuple(guards)]
+    if len(hits) != 1 or hits[0][0] is None:
+        raise TranslateError(f'{rel}:{qualname}: expected one `{target} = [string literals]` under '
+                             f'{list(guards)!r}, found {[(s[0], list(s[1])) for s in sites]!r}')
+    others = [s for s in sites if s[1] != tuple(guards) and s[0] is not None]
+    if others:
+        raise TranslateError(f'{rel}:{qualname}: `{target}` is assigned a second list of literals at line '
+                             f'{others[0][2]}')
+    return hits[0]
+
+
+def method_str_list_calls(rel: str, qualname: str, receiver: str, method: str):
+    """sites of the statements `<receiver>.<method>([...])` (e.g. `.extend([...])`): the single positional
+    argument has to be a list of string literals; any other call of a method in `MUTATORS` on the receiver is
+    reported with value None"""
+    fn = _function(rel, qualname)
+    sites = []
+    for n, g in _guarded_nodes(fn):
+        if isinstance(n, ast.Call) and isinstance(n.func, ast.Attribute) and _same_expr(n.func.value, receiver):
+            if n.func.attr == method:
+                if len(n.args) != 1 or n.keywords:
+                    raise TranslateError(f'{rel}:{qualname}: `{receiver}.{method}` with unexpected arguments '
+                                         f'(line {n.lineno})')
+                sites.append((str_list(n.args[0]), g, n.lineno))
+            elif n.func.attr in MUTATORS:
+                sites.append((None, g, n.lineno))
+    return sites
+
+
+MUTATORS = ('append', 'extend', 'insert', 'remove', 'pop', 'clear', 'sort', 'reverse', '__setitem__', '__delitem__',
+            'update', 'setdefault', 'popitem')
+
+
+def dict_literal_keys(rel: str, qualname: str, var: str):
+    """site of the only assignment `var = {...}` of the function: the keys of the dict display, all string
+    literals, in source order (value of the site: list of keys)"""
+    fn = _function(rel, qualname)
+    sites = []
+    for n, g in _guarded_nodes(fn):
+        if isinstance(n, ast.Assign) and len(n.targets) == 1 and isinstance(n.targets[0], ast.Name) \
+                and n.targets[0].id == var:
+            if not isinstance(n.value, ast.Dict):
+                raise TranslateError(f'{rel}:{qualname}: `{var}` is assigned something that is not a dict display '
+                                     f'(line {n.lineno})')
+            keys = []
+            for k in n.value.keys:
+                if not (isinstance(k, ast.Constant) and isinstance(k.value, str)):
+                    raise TranslateError(f'{rel}:{qualname}: key of `{var}` that is not a string literal '
+                                         f'(line {n.lineno})')
+                keys.append(k.value)
+            sites.append((keys, g, n.lineno))
+    if len(sites) != 1:
+        raise TranslateError(f'{rel}:{qualname}: expected one `{var} = {{...}}`, found {len(sites)}')
+    return sites[0]
+
+
+def _subscripts(rel: str, qualname: str, var: str, ctx) -> list:
+    fn = _function(rel, qualname)
+    sites = []
+    for n, g in _guarded_nodes(fn):
+        if isinstance(n, ast.Subscript) and isinstance(n.value, ast.Name) and n.value.id == var \
+                and isinstance(n.ctx, ctx):
+            k = n.slice
+            if not (isinstance(k, ast.Constant) and isinstance(k.value, str)):
+                raise TranslateError(f'{rel}:{qualname}: `{var}[...]` with a subscript that is not a string literal '
+                                     f'(line {n.lineno})')
+            sites.append((k.value, g, n.lineno))
+    return sites
+
+
+def subscript_stores(rel: str, qualname: str, var: str):
+    """sites of `var['key'] = ...` (and `del var['key']`, reported like a store), in source order"""
+    return _subscripts(rel, qualname, var, (ast.Store, ast.Del))
+
+
+def subscript_loads(rel: str, qualname: str, var: str):
+    """sites of `var['key']` being read, in source order (f-strings included)"""
+    return _subscripts(rel, qualname, var, ast.Load)
+
+
+def fstring_parts(rel: str, qualname: str, callee: str):
+    """the only call `<...>.callee(f"...")` / `callee(f"...")` of the function whose single argument is an
+    f-string: its parts in order, ('lit', text) for literal text and ('name', id) for a plain `{name}` field
+    (no conversion, no format spec); anything else is not understood"""
+    fn = _function(rel, qualname)
+    hits = []
+    for n in _own_nodes(fn):
+        if isinstance(n, ast.Call) and _callee_name(n) == callee and len(n.args) == 1 and not n.keywords \
+                and isinstance(n.args[0], ast.JoinedStr):
+            hits.append(n.args[0])
+    if len(hits) != 1:
+        raise TranslateError(f'{rel}:{qualname}: expected one call {callee}(f"..."), found {len(hits)}')
+    parts = []
+    for v in hits[0].values:
+        if isinstance(v, ast.Constant) and isinstance(v.value, str):
+            parts.append(('lit', v.value))
+        elif isinstance(v, ast.FormattedValue) and isinstance(v.value, ast.Name) and v.conversion == -1 \
+                and v.format_spec is None:
+            parts.append(('name', v.value.id))
+        else:
+            raise TranslateError(f'{rel}:{qualname}: f-string field that is not a plain name: {ast.dump(v)[:120]}')
+    return parts
+
+
+def dedupe(xs: List[str]) -> List[str]:
+    out = []
+    for x in xs:
+        if x not in out:
+            out.append(x)
+    return out
+
+
+def lean_char(c: str) -> str:
+    """a Lean `Char` term for one character"""
+    if c == "'":
+        return "'\\''"
+    if c == '\\':
+        return "'\\\\'"
+    if c == '\t':
+        return "'\\t'"
+    if c == '\n':
+        return "'\\n'"
+    if c == '\r':
+        return "'\\r'"
+    if ' ' <= c <= '~':
+        return f"'{c}'"
+    return f'(Char.ofNat {ord(c)})'
+
+
+def lean_chars(s: str) -> str:
+    """a string as a `List Char` display (decidable statements about it need no String machinery)"""
+    return '[' + ','.join(lean_char(c) for c in s) + ']'
+
+
+def lean_chars_table(name: str, doc: str, xs: List[str]) -> str:
+    """`def name : List (List Char)` with one string per line, the string itself in a comment"""
+    lines = [f'/-- {doc} -/', f'def {name} : List (List Char) :=']
+    if not xs:
+        lines.append('  []')
+    for i, x in enumerate(xs):
+        lead = '  [' if i == 0 else '   '
+        end = ']' if i == len(xs) - 1 else ','
+        lines.append(f'{lead}{lean_chars(x)}{end}   -- {ascii(x)}')
+    return '\n'.join(lines) + '\n'
+
+
+# ------------------------------------------------------------------------------------------
+# additions for C20: string lists assigned inside a function, repeated assignments, import aliases
+# ------------------------------------------------------------------------------------------
+
+def str_list_value(v: Any, what: str = 'value') -> List[str]:
+    """a literal list / tuple of strings (anything else is not recognised)"""
+    if not isinstance(v, (list, tuple)) or not all(isinstance(x, str) for x in v):
+        raise TranslateError(f'{what} is not a list of string literals: {v!r}')
+    return list(v)
+
+
+def assigned_str_list(rel: str, qualname: str, var: str) -> List[str]:
+    """the list of string literals of the only assignment `var = [...]` in the function"""
+    fn = _function(rel, qualname)
+    hits = [n for n in _own_nodes(fn)
+            if isinstance(n, ast.Assign) and len(n.targets) == 1 and isinstance(n.targets[0], ast.Name)
+            and n.targets[0].id == var]
+    if len(hits) != 1:
+        raise TranslateError(f'{rel}:{qualname}: expected one assignment to `{var}`, found {len(hits)}')
+    if not isinstance(hits[0].value, (ast.List, ast.Tuple)):
+        raise TranslateError(f'{rel}:{qualname}: `{var}` is not assigned a list display')
+    return str_list_value(literal(hits[0].value), f'{rel}:{qualname}: `{var}`')
+
+
+def assigned_literals(rel: str, qualname: str, var: str) -> List[Any]:
+    """the numeric literals among the plain assignments `var = …` of the function, in source order
+    (assignments of other expressions — `var = other_variable` — are skipped; augmented assignments are
+    not assignments of a literal)"""
+    fn = _function(rel, qualname)
+    out = []
+    for n in _own_nodes(fn):
+        if isinstance(n, ast.Assign) and len(n.targets) == 1 and isinstance(n.targets[0], ast.Name) \
+                and n.targets[0].id == var:
+            try:
+                out.append((n.lineno, n.col_offset, numeric_literal(n.value)))
+            except TranslateError:
+                pass
+    out.sort()
+    return [v for _, _, v in out]
+
+
+def import_alias(rel: str, alias: str) -> str:
+    """the dotted module name bound to `alias` by a module-level `import a.b.c as alias` / `import alias`"""
+    tree = parse_file(rel)
+    found = []
+    for n in tree.body:
+        if isinstance(n, ast.Import):
+            for a in n.names:
+                if (a.asname or a.name.split('.')[0]) == alias:
+                    found.append(a.name if a.asname else a.name.split('.')[0])
+        elif isinstance(n, ast.ImportFrom):
+            for a in n.names:
+                if (a.asname or a.name) == alias:
+                    found.append(f'{"." * n.level}{n.module or ""}.{a.name}')
+    if len(found) != 1:
+        raise TranslateError(f'{rel}: expected one module-level import binding `{alias}`, found {found}')
+    return found[0]
+
+
+def assigned_dict_str_keys(rel: str, qualname: str, var: str) -> List[str]:
+    """the keys (string literals, in source order) of the dict display of the only assignment `var = {...}`
+    in the function (`var[k] = …` afterwards is not an assignment to `var`)"""
+    fn = _function(rel, qualname)
+    hits = [n for n in _own_nodes(fn)
+            if isinstance(n, ast.Assign) and len(n.targets) == 1 and isinstance(n.targets[0], ast.Name)
+            and n.targets[0].id == var]
+    if len(hits) != 1:
+        raise TranslateError(f'{rel}:{qualname}: expected one assignment to `{var}`, found {len(hits)}')
+    d = hits[0].value
+    if not isinstance(d, ast.Dict):
+        raise TranslateError(f'{rel}:{qualname}: `{var}` is not assigned a dict display')
+    keys = []
+    for k in d.keys:
+        if not (isinstance(k, ast.Constant) and isinstance(k.value, str)):
+            raise TranslateError(f'{rel}:{qualname}: `{var}` has a key that is not a string literal')
+        keys.append(k.value)
+    return keys
+
+
+# string / character literals, per-call-site arguments (added for C16 / C17)
+# ------------------------------------------------------------------------------------------
+# Extended templates: besides `_N<i>` (one numeric literal) a template may have the holes
+#   `_S<i>`  one str constant (any length),
+#   `_C<i>`  a collection of single characters: a str constant (its characters), or a set / list / tuple
+#            display whose elements are all one-character str constants.
+# Everything else of the template has to be found in the source exactly, as for `literals_in`.
+
+_X_HOLES = ('_N', '_S', '_C')
+
+
+def _is_hole_x(node: ast.AST) -> Optional[str]:
+    if isinstance(node, ast.Name):
+        for p in _X_HOLES:
+            if node.id.startswith(p) and node.id[len(p):].isdigit():
+                return node.id
+    return None
+
+
+def string_literal(node: ast.AST) -> str:
+    if isinstance(node, ast.Constant) and isinstance(node.value, str):
+        return node.value
+    raise TranslateError(f'not a string literal: {ast.dump(node)[:120]}')
+
+
+def char_collection(node: ast.AST) -> List[str]:
+    """the characters c for which `c in <node>` holds (c one character), in source order, no repeats"""
+    if isinstance(node, ast.Constant) and isinstance(node.value, str):
+        chars = list(node.value)
+    elif isinstance(node, (ast.Set, ast.List, ast.Tuple)):
+        chars = []
+        for e in node.elts:
+            s = string_literal(e)
+            if len(s) != 1:
+                raise TranslateError(f'element {s!r} of a character collection is not one character')
+            chars.append(s)
+    else:
+        raise TranslateError(f'not a character collection: {ast.dump(node)[:120]}')
+    out: List[str] = []
+    for c in chars:
+        if c not in out:
+            out.append(c)
+    return out
+
+
+def _hole_value(hole: str, node: Any) -> Any:
+    if not isinstance(node, ast.AST):
+        raise TranslateError('no node')
+    if hole.startswith('_N'):
+        return numeric_literal(node)
+    if hole.startswith('_S'):
+        return string_literal(node)
+    return char_collection(node)
+
+
+def _match_x(node: Any, tmpl: Any, holes: Dict[str, Any]) -> bool:
+    if isinstance(tmpl, ast.AST):
+        h = _is_hole_x(tmpl)
+        if h is not None:
+            try:
+                v = _hole_value(h, node)
+            except TranslateError:
+                return False
+            if h in holes and holes[h] != v:
+                return False
+            holes[h] = v
+            return True
+        if type(node) is not type(tmpl):
+            return False
+        for field in tmpl._fields:
+            if field in ('ctx', 'kind', 'type_comment'):
+                continue
+            if not _match_x(getattr(node, field, None), getattr(tmpl, field, None), holes):
+                return False
+        return True
+    if isinstance(tmpl, list):
+        return isinstance(node, list) and len(node) == len(tmpl) and \
+            all(_match_x(n, t, holes) for n, t in zip(node, tmpl))
+    return node == tmpl
+
+
+def match_template_x(node: ast.AST, template: str) -> Optional[Dict[str, Any]]:
+    try:
+        t = ast.parse(template, mode='eval').body
+    except SyntaxError as e:
+        raise TranslateError(f'bad template {template!r}: {e}')
+    holes: Dict[str, Any] = {}
+    return holes if _match_x(node, t, holes) else None
+
+
+def literals_in_x(rel: str, qualname: str, template: str, count: int = 1) -> List[Dict[str, Any]]:
+    """as `literals_in`, for templates with `_N`, `_S` and `_C` holes: the hole values of all places of the
+    function that are the template, in source order; exactly `count` are required"""
+    fn = _function(rel, qualname)
+    found = []
+    for n in _own_nodes(fn):
+        if isinstance(n, ast.expr):
+            m = match_template_x(n, template)
+            if m is not None:
+                found.append((getattr(n, 'lineno', 0), getattr(n, 'col_offset', 0), m))
+    found.sort(key=lambda x: (x[0], x[1]))
+    if len(found) != count:
+        raise TranslateError(f'{rel}:{qualname}: expected {count} occurrence(s) of `{template}`, found {len(found)}')
+    return [m for _, _, m in found]
+
+
+def literal_in_x(rel: str, qualname: str, template: str, hole: str) -> Any:
+    m = literals_in_x(rel, qualname, template, 1)[0]
+    if hole not in m:
+        raise TranslateError(f'template `{template}` has no hole {hole}')
+    return m[hole]
+
+
+def fstring_around(rel: str, qualname: str, inner: str, count: int = 1) -> List[List[str]]:
+    """the constant pieces [before, after] of the f-strings f'<before>{<inner>}<after>' of the function
+    (`inner` a template without holes, no conversion / format spec), in source order; exactly `count`"""
+    fn = _function(rel, qualname)
+    found = []
+    for n in _own_nodes(fn):
+        if isinstance(n, ast.JoinedStr):
+            fv = [v for v in n.values if isinstance(v, ast.FormattedValue)]
+            if len(fv) != 1 or fv[0].conversion != -1 or fv[0].format_spec is not None or \
+                    match_template_x(fv[0].value, inner) is None:
+                continue
+            i = n.values.index(fv[0])
+            before = ''.join(string_literal(v) for v in n.values[:i])
+            after = ''.join(string_literal(v) for v in n.values[i + 1:])
+            found.append((n.lineno, n.col_offset, [before, after]))
+    found.sort(key=lambda x: (x[0], x[1]))
+    if len(found) != count:
+        raise TranslateError(f'{rel}:{qualname}: expected {count} f-string(s) around `{inner}`, found {len(found)}')
+    return [p for _, _, p in found]
+
+
+def call_arguments_each(rel: str, qualname: str, callee: str, param: str, position: Optional[int],
+                        count: int) -> List[Any]:
+    """as `call_argument`, but per call site: what each of the exactly `count` calls of `callee` inside
+    `qualname` passes for `param`, in source order (a literal of any kind, 'DEFAULT', or ('NAME', id))"""
+    fn = _function(rel, qualname)
+    seen = []
+    for n in _own_nodes(fn):
+        if isinstance(n, ast.Call) and _callee_name(n) == callee:
+            if any(isinstance(a, ast.Starred) for a in n.args) or any(k.arg is None for k in n.keywords):
+                raise TranslateError(f'{rel}:{qualname}: call of {callee} with * / ** arguments')
+            node = None
+            for k in n.keywords:
+                if k.arg == param:
+                    node = k.value
+            if node is None and position is not None and len(n.args) > position:
+                node = n.args[position]
+            if node is None:
+                v: Any = 'DEFAULT'
+            elif isinstance(node, ast.Name):
+                v = ('NAME', node.id)
+            elif isinstance(node, ast.Constant) and isinstance(node.value, str):
+                v = ('STR', node.value)
+            else:
+                v = numeric_literal(node)
+            seen.append((n.lineno, n.col_offset, v))
+    seen.sort(key=lambda x: (x[0], x[1]))
+    if len(seen) != count:
+        raise TranslateError(f'{rel}:{qualname}: expected {count} call(s) of {callee}, found {len(seen)}')
+    return [v for _, _, v in seen]
+
+
+def effective_arguments_each(rel: str, qualname: str, callee: str, param: str, position: Optional[int],
+                             count: int, callee_rel: str, callee_qualname: Optional[str] = None) -> List[Any]:
+    """per call site (source order) the NUMBER that reaches `param` of `callee`: the literal passed, or the
+    callee's default when nothing is passed; a variable or a string is not recognised"""
+    out = []
+    for a in call_arguments_each(rel, qualname, callee, param, position, count):
+        if a == 'DEFAULT':
+            d = func_defaults(callee_rel, callee_qualname or callee)
+            if param not in d:
+                raise TranslateError(f'{callee_rel}:{callee_qualname or callee} has no default for `{param}`')
+            out.append(numeric_literal(ast.parse(repr(d[param]), mode='eval').body))
+        elif isinstance(a, tuple):
+            raise TranslateError(f'{rel}:{qualname}: {callee}({param}={a[1]!r}) does not pass a number')
+        else:
+            out.append(a)
+    return out
+
+
+def str_default(rel: str, qualname: str, param: str) -> str:
+    """the default of parameter `param` of a function, which has to be a str literal"""
+    d = func_defaults(rel, qualname)
+    if param not in d:
+        raise TranslateError(f'{rel}:{qualname} has no default for `{param}`')
+    if not isinstance(d[param], str):
+        raise TranslateError(f'{rel}:{qualname}: default of `{param}` is {d[param]!r}, not a string')
+    return d[param]
+
+
+def bool_default(rel: str, qualname: str, param: str) -> bool:
+    d = func_defaults(rel, qualname)
+    if param not in d or not isinstance(d[param], bool):
+        raise TranslateError(f'{rel}:{qualname}: default of `{param}` is not a bool literal')
+    return d[param]
+
+
+def as_nat(v: Any) -> int:
+    v = as_int(v)
+    if v < 0:
+        raise TranslateError(f'negative where a count is expected: {v}')
+    return v
+
+
+def one_char(s: str, what: str) -> str:
+    if not isinstance(s, str) or len(s) != 1:
+        raise TranslateError(f'{what}: {s!r} is not a single character')
+    return s
+
+
+def lean_char_lit(c: str) -> str:
+    one_char(c, 'lean_char_lit')
+    if c in ("'", '\\'):
+        return "'\\" + c + "'"
+    if c.isprintable() and not c.isspace() or c == ' ':
+        return f"'{c}'"
+    return f'(Char.ofNat {ord(c)})'
+
+
+def lean_char_list(s) -> str:
+    """a str (or list of one-character strs) as a Lean `List Char` literal"""
+    return '[' + ', '.join(lean_char_lit(c) for c in s) + ']'
+
+
+def lean_bool(b: bool) -> str:
+    if not isinstance(b, bool):
+        raise TranslateError(f'not a bool: {b!r}')
+    return 'true' if b else 'false'
+
+
+def char_collection_default(rel: str, qualname: str, param: str) -> List[str]:
+    """the default of `param` as the characters c with `c in default`: a str literal (its characters, in
+    order) or a set / list / tuple literal of one-character strings (sorted)"""
+    d = func_defaults(rel, qualname)
+    if param not in d:
+        raise TranslateError(f'{rel}:{qualname} has no default for `{param}`')
+    v = d[param]
+    if isinstance(v, str):
+        chars = list(v)
+    elif isinstance(v, (set, frozenset, list, tuple)) and all(isinstance(x, str) and len(x) == 1 for x in v):
+        chars = sorted(v)
+    else:
+        raise TranslateError(f'{rel}:{qualname}: default of `{param}` is {v!r}, not a collection of characters')
+    out: List[str] = []
+    for c in chars:
+        if c not in out:
+            out.append(c)
+    return out
